@@ -1247,3 +1247,8 @@ pub fn read_sample_scenario(options: DbOptions, levels: &[(usize, Vec<VFile>)], 
     let m = v.get_seek_compaction_metadata();
     m.file_to_compact.as_ref().map(|f| (f.file_number(), m.level_of_file_to_compact))
 }
+
+/// Path of table file `n` of the database described by `options`.
+pub fn table_path(options: &DbOptions, n: u64) -> std::path::PathBuf {
+    crate::file_names::FileNameHandler::new(options.db_path().to_string()).get_table_file_path(n)
+}
